@@ -209,9 +209,10 @@ def toEntry (env : Env) : (fuel : Nat) → (root : Mod) → (scope : List Stmt) 
     else if n.kw == "grouping" then (e, { st with gcache := st.gcache ++ [(nodeId root n, e)] })
     else (e, st)
 
-/-- Fuel for one `toEntry` call tree: more than any call depth (each grouping and each module is
-entered at most once along a call path, and within one body the depth is at most the statement
-depth). -/
+/-- Fuel for one `toEntry` call tree: more than any call depth. Along a call path each grouping and
+each module is entered at most once and between two such entries the statement height decreases,
+so (tracked nodes + 1) × (height + 2) ≤ (s + 1)(s + 2) suffices (`Lemmas/Fuel.toEntry_fuel`); fuel
+is only a counter, a generous value costs nothing. -/
 def stmtCount : Stmt → Nat
   | .mk _ _ _ _ _ _ subs => 1 + countL subs
 where countL : List Stmt → Nat
@@ -219,6 +220,7 @@ where countL : List Stmt → Nat
   | s :: ss => stmtCount s + countL ss
 
 def entryFuel (reg : Registry) : Nat :=
-  2 * (reg.mods.foldl (fun a m => a + stmtCount m.stmt) 0) + 64
+  let s := reg.mods.foldl (fun a m => a + stmtCount m.stmt) 0
+  (s + 2) * (s + 2) + 64
 
 end Goyang.Model
